@@ -124,13 +124,8 @@ Proof. rewrite map_app. reflexivity. Qed.
 
 Lemma bits_of_snoc (grp : list (net P)) nt i : n_index nt = Some i ->
   bits_of (grp ++ [nt]) = bits_of grp ++ [(i, n_pins nt)].
-Proof. intro H. unfold bits_of. rewrite map_app. cbn [map]. rewrite H. reflexivity. Qed.
+Proof. intro H. unfold bits_of. rewrite flat_map_app. cbn [flat_map]. rewrite H, app_nil_r. reflexivity. Qed.
 
-Lemma idxs_bits_in (grp : list (net P)) (i : N) : In i (idxs (bits_of grp)) ->
-  exists g, match n_index g with Some i0 => i0 | None => 0%N end = i /\ In g grp.
-Proof.
-  unfold idxs, bits_of. rewrite map_map. cbn [fst]. intro H. apply in_map_iff in H. exact H.
-Qed.
 
 (* what denote_conn gives *)
 Lemma dc_names_iff nets s k : denote_conn nets s -> (In k (map e_name s) <-> In k (map key_name nets)).
@@ -292,7 +287,7 @@ Proof.
       split; [exact Hne|]. intro E. apply Hne. apply (proj1 (Hc a Ha)). exact E. }
     destruct index as [i|].
     + destruct (append_case done s0 (ident, name, w) (mkcab i true [w]) Hdc Hfr) as [F Hd].
-      { rewrite Hidx. unfold bits_of. cbn [map]. rewrite Hidx, Hpins. apply cab_inv_init. }
+      { rewrite Hidx. unfold bits_of. cbn [flat_map]. rewrite Hidx, Hpins. cbn [app]. apply cab_inv_init. }
       rewrite Hkn, Hki in F, Hd.
       eexists. split; [|exact Hd].
       unfold read_net. rewrite NB.
